@@ -3,6 +3,8 @@ import re
 from lib.rules import arg_desc, who_calls, writers_of_field, arg_path
 from lib.tables import enumerate_paths, describe
 
+from lib.rules import owned_by  # noqa: E402
+
 META = dict(
     level='other',
     explanation=(
@@ -80,7 +82,8 @@ def rule_next_start(ctx):
     ctx.floor('K13', 'paths setting next_update_start', n, 2)
     ws = [(bb, site) for bb, site, how, f in writers_of_field(ctx, 'payload::history::PayloadHistory') if f == 'next_update_start' and how == 'assign']
     for bb, site in ws:
-        ctx.check(bb.nid.endswith('SharedHistory::mark_update_done'), 'K3', 'next_update_start-writer<-%s' % bb.nid, 'written in mark_update_done',
+        ok, who = owned_by(ctx, bb.nid, ['SharedHistory::mark_update_done'])
+        ctx.check(ok, 'K3', 'next_update_start-writer<-%s' % who, 'written in mark_update_done',
                   'next_update_start written in %s' % bb.nid, loc=site.loc())
     ctx.floor('K3', 'assignments to next_update_start', len(ws), 2)
     cs = ctx.facts.callers('payload::history::PayloadHistory::refresh_wait')
